@@ -617,3 +617,33 @@ _run_c33d = run
 def run(ctx):  # noqa: F811
     _run_c33d(ctx)
     r33_6(ctx, ctx.model)
+
+
+# ---------------------------------------------------------------------------------------------------------------- R33.7
+def r33_7(ctx, m):
+    R = "R33.7"
+    ctx.rule(R, "forest_math.mean_and_std: second moments are Hermitian - every square entering the variance (of a tree of the forest "
+                "and of the mean) is the square of an absolute value (or a product with the conjugate); a plain square gives the "
+                "pseudo-variance and a complex 'standard deviation' for complex trees", floor=2)
+    fi = m.func(FMM, "mean_and_std", required=False)
+    if fi is None:
+        ctx.und(R, f"{FMM}::mean_and_std", "function missing", FMM)
+        return
+    ctx.saw_func(fi)
+    n = 0
+    for z in ast.walk(fi.node):
+        if isinstance(z, ast.BinOp) and isinstance(z.op, ast.Pow) and isinstance(z.right, ast.Constant) and z.right.value == 2:
+            n += 1
+            b = z.left
+            herm = isinstance(b, ast.Call) and call_name(b) in ("abs", "absolute", "fabs")
+            ctx.check(R, f"{fi.key}::`{src(z)}` is a squared modulus", herm, None if herm else f"`{src(z)}` squares a possibly complex value without the modulus", fi, z)
+    if not n:
+        ctx.und(R, f"{fi.key}::squares", "no squares found (variance computed differently)", fi)
+
+
+_run_c33e = run
+
+
+def run(ctx):  # noqa: F811
+    _run_c33e(ctx)
+    r33_7(ctx, ctx.model)
